@@ -218,10 +218,6 @@ class Model:
 
     def _index_nested(self, m, body, outer):
         for node in body:
-            for sub in ast.walk(node):
-                if sub is node and isinstance(
-                        node, (ast.FunctionDef, ast.ClassDef)):
-                    pass
             if isinstance(node, (ast.FunctionDef, ast.AsyncFunctionDef)):
                 f = FuncInfo(m, node, None, outer)
                 self.functions[f.qual] = f
